@@ -1,5 +1,6 @@
 import LyModel.Text.XmlText
 import LyModel.Text.JsonText
+import LyModel.Text.Spec
 /-! driver ops of component `text` -/
 namespace LyModel.Text.Drv
 open LyModel
@@ -27,6 +28,18 @@ def handle (op : String) (args : List String) : String :=
       match JsonText.parse s with
       | .ok (v, rest) => "ok " ++ Hex.enc v ++ " " ++ toString rest.length
       | .error e => "err " ++ e.name
+    | none => "err BadHex"
+  | "specxml", [attr, h] =>
+    match Hex.dec h with
+    | some s => match XmlSpec.readAll (attr == "1") s with
+      | some v => "ok " ++ Hex.enc v
+      | none => "err NotWellFormed"
+    | none => "err BadHex"
+  | "specjson", [h] =>
+    match Hex.dec h with
+    | some s => match JsonSpec.readToken s with
+      | some (v, rest) => "ok " ++ Hex.enc v ++ " " ++ toString rest.length
+      | none => "err Invalid"
     | none => "err BadHex"
   | "getutf8", [h] =>
     match Hex.dec h with
